@@ -49,16 +49,28 @@ class Inconclusive(Exception):
 
 
 class Proc:
-    __slots__ = ("cmd", "rc", "out", "err", "timed_out", "cpu_limited", "wall", "signal")
+    __slots__ = ("cmd", "rc", "out", "err", "timed_out", "cpu_limited", "wall", "signal", "retried")
 
     def __init__(self):
+        self.retried = False
         self.timed_out = False
         self.cpu_limited = False
         self.signal = None
 
 
 def run_proc(cmd, stdin_data=None, env=None, timeout=300, cpu=120, cwd=None, stdin_file=None):
-    """Run cmd with RLIMIT_CPU and a wall-clock watchdog. stdin is /dev/null unless given."""
+    """Run cmd with RLIMIT_CPU and a wall-clock watchdog. stdin is /dev/null unless given.
+    The CPU limit is the verdict-relevant bound (load independent). A wall-clock expiry is re-run once with a
+    four times longer watchdog before it is reported, so a loaded machine does not turn into 'hang' alarms."""
+    r = _run_proc_once(cmd, stdin_data, env, timeout, cpu, cwd, stdin_file)
+    if r.timed_out:
+        r2 = _run_proc_once(cmd, stdin_data, env, timeout * 4, cpu, cwd, stdin_file)
+        r2.retried = True
+        return r2
+    return r
+
+
+def _run_proc_once(cmd, stdin_data=None, env=None, timeout=300, cpu=120, cwd=None, stdin_file=None):
     e = dict(BASE_ENV)
     if env:
         e.update(env)
